@@ -87,7 +87,12 @@ TMPair(kind, P, A, vals, cr, i, q) ==
       kv   == IF cm = "win" THEN VDoc(x, t) ELSE IF cm = "loss" THEN VDoc(RNeg(x), t) ELSE VtDoc(x, t)
       kw   == IF cm = "win" THEN WDoc(x, t) ELSE IF cm = "loss" THEN WDoc(RNeg(x), t) ELSE WtDoc(x, t)
       sgn  == IF cm = "loss" THEN "-1" ELSE "1"
-  IN  Term(sgn ** (coef ** kv.v), coef ** ((Rel ** kv.m) ++ kv.n ++ ex),
+      \* The documented form of V~ (-x - t for x < 0, -x + t otherwise) jumps by 2t at x = 0.  When two tied teams' totals
+      \* agree up to the rounding of their sums (the same roster summed in another order), the doubles decide the side and the
+      \* specification's 40 digits may decide otherwise: either side is the documented form, so the jump is part of the budget
+      \* (the form's stated error, C17: within 2t of the exact V~, which is continuous there).
+      sj   == IF cm = "tie" /\ RLeq(RAbs(A[i].mu -- A[q].mu), "4" ** (Ulp4 ** (A[i].amu ++ A[q].amu))) THEN R2(t) ELSE "0"
+  IN  Term(sgn ** (coef ** kv.v), coef ** ((Rel ** kv.m) ++ kv.n ++ ex ++ sj),
            dco ** kw.v, dco ** ((Rel ** kw.m) ++ kw.n ++ R2(RAbs(x) ++ "2") ** ex), kv.g \/ kw.g)
 
 \* opponents of team i
